@@ -122,20 +122,21 @@ type ComboPlan struct {
 }
 
 type Scenario struct {
-	Property          string        `json:"property"`
-	Signal            string        `json:"signal"`
-	Cfg               CfgPlan       `json:"config"`
-	Clock             string        `json:"clock_mode"`
-	Policy            string        `json:"scheduling_policy"`
-	Unit              time.Duration `json:"time_unit_ns"`
-	NumCPU            int           `json:"queue_capacity_numcpu"`
-	HonourCtx         bool          `json:"downstream_honours_ctx"`
-	Combos            []ComboPlan   `json:"combos,omitempty"`
-	Callers           []*CallerPlan `json:"callers"`
-	ShutdownNotBefore int           `json:"shutdown_not_before_step"` // -1: after all callers are done
-	NReqs             int           `json:"n_requests"`
-	NItems            int           `json:"n_items"`
-	knobs             Knobs
+	Property            string        `json:"property"`
+	Signal              string        `json:"signal"`
+	Cfg                 CfgPlan       `json:"config"`
+	Clock               string        `json:"clock_mode"`
+	Policy              string        `json:"scheduling_policy"`
+	Unit                time.Duration `json:"time_unit_ns"`
+	NumCPU              int           `json:"queue_capacity_numcpu"`
+	HonourCtx           bool          `json:"downstream_honours_ctx"`
+	DownstreamKeepsData bool          `json:"downstream_keeps_working_on_the_data_it_owns"`
+	Combos              []ComboPlan   `json:"combos,omitempty"`
+	Callers             []*CallerPlan `json:"callers"`
+	ShutdownNotBefore   int           `json:"shutdown_not_before_step"` // -1: after all callers are done
+	NReqs               int           `json:"n_requests"`
+	NItems              int           `json:"n_items"`
+	knobs               Knobs
 }
 
 var sizesAll = []uint32{0, 1, 2, 3, 5, 8, 13}
@@ -208,6 +209,7 @@ func genScenario(t *core.Tape, prop string, numCPU int) *Scenario {
 	}
 	sc.Policy = []string{"uniform", "sticky", "priority"}[t.Weighted(core.Cfg, 2, 1, 1)]
 	sc.HonourCtx = pct(t, core.Cfg, k.HonourCtxPct)
+	sc.DownstreamKeepsData = pct(t, core.Cfg, 30)
 	sc.Unit = c.Timeout
 	if sc.Unit == 0 {
 		sc.Unit = 10 * time.Millisecond
